@@ -70,6 +70,10 @@ def holds_report(path) -> bool:
         return False
 
 
+_tcount: dict = {}
+_tcount_lock = threading.Lock()
+
+
 def _faults(inject: dict, key: str) -> list[dict]:
     """an injection is one fault or a list of faults of that kind"""
     v = inject.get(key)
@@ -284,6 +288,12 @@ def install() -> None:
                 time.sleep(d)
             for fault in _faults(rec.inject, "raise_in_transform"):
                 if fault.get("f") == rec.rel(file_context.file_path) and fault.get("c") in (None, rec.cur_codemod):
+                    if "t" in fault:   # only the t-th transformer of the pipeline (counted per codemod and file)
+                        key = (rec.cur_codemod, rec.rel(file_context.file_path))
+                        with _tcount_lock:
+                            _tcount[key] = _tcount.get(key, 0) + 1
+                            if _tcount[key] != fault["t"]:
+                                continue
                     raise InjectedFault("injected by harness in transform")
         out_tree = orig_transform(cls, module, results, file_context)
         if rec is not None:
@@ -451,6 +461,7 @@ def run_codemodder(argv: list[str], *, inject: dict | None = None, env: dict | N
     exit_code = None
     exc = None
     rec.emit("RunStart", argv=list(argv))
+    _tcount.clear()
     _active = rec
     try:
         with contextlib.redirect_stdout(out) if capture else contextlib.nullcontext():
